@@ -76,7 +76,7 @@ func (p *resultsPrinter) PrintResults(matchingNodes *list.List) error {
 
 	if matchingNodes.Len() == 0 {
 		log.Debug("no matching results, nothing to print")
-		return nil
+		return p.printAppendix()
 	}
 
 	if !p.encoder.CanHandleAliases() {
@@ -153,6 +153,13 @@ func (p *resultsPrinter) PrintResults(matchingNodes *list.List) error {
 		log.Debugf("done printing results")
 	}
 
+	return p.printAppendix()
+}
+
+// printAppendix copies the content that follows a front matter block (if any)
+// to the output. It has to run even when the expression produced no results,
+// otherwise that content is lost.
+func (p *resultsPrinter) printAppendix() error {
 	// what happens if I remove output format check?
 	if p.appendixReader != nil {
 		writer, err := p.printerWriter.GetWriter(nil)
